@@ -56,18 +56,41 @@ theorem freq_default (e : Ev) (hf : e.get? "freq" = none) (hm : e.has "midinote"
     e.freq = some (.midicps (.q 60)) := by
   unfold Ev.freq; simp [hf, hm, hn, hd]
 
-/-- The degree chain over a 12-ET scale, spelled out:
+/-- The degree chain for a scale over an equal tuning with `spo` steps per octave (octave ratio 2),
+    spelled out: key, gtranspose and root are tuning steps and are scaled together,
+    `midinote = ((key(degree + mtranspose) + gtranspose + root) / spo + octave - 5) * 12 + 60`. -/
+theorem chain_degree_to_midinote_steps (e : Ev) (scale : List Int) (spo : Nat)
+    (deg mtr gtr root oct key : Rat) (hspo : spo ≠ 0)
+    (hs : e.scaleOf = some (scale, spo)) (h1 : e.numD "degree" 0 = some deg)
+    (h2 : e.numD "mtranspose" 0 = some mtr) (h3 : e.numD "gtranspose" 0 = some gtr)
+    (h4 : e.numD "root" 0 = some root) (h5 : e.numD "octave" 5 = some oct)
+    (hk : degreeToKey scale spo (deg + mtr) = some key) :
+    e.midinoteFromDegree = some (((key + gtr + root) / (spo : Rat) + oct - 5) * 12 + 60) := by
+  unfold Ev.midinoteFromDegree
+  simp [hs, h1, h2, h3, h4, h5, hk, hspo]
+
+/-- The same from the `note` entry point: `note` is already a key in tuning steps. -/
+theorem chain_note_to_midinote_steps (e : Ev) (scale : List Int) (spo : Nat) (note gtr root oct : Rat)
+    (hspo : spo ≠ 0) (hs : e.scaleOf = some (scale, spo)) (hn : e.get? "note" = some (.num note))
+    (h3 : e.numD "gtranspose" 0 = some gtr) (h4 : e.numD "root" 0 = some root)
+    (h5 : e.numD "octave" 5 = some oct) :
+    e.midinoteFromNote = some (((note + gtr + root) / (spo : Rat) + oct - 5) * 12 + 60) := by
+  unfold Ev.midinoteFromNote
+  simp [hs, hn, h3, h4, h5, hspo, V.num?]
+
+/-- The degree chain over a 12-ET scale:
     `midinote = (key(degree + mtranspose) + gtranspose + root) / 12 * 12 + (octave - 5) * 12 + 60`. -/
 theorem chain_degree_to_midinote (e : Ev) (scale : List Int) (deg mtr gtr root oct key : Rat)
-    (hs : e.scaleOf = some scale) (h1 : e.numD "degree" 0 = some deg) (h2 : e.numD "mtranspose" 0 = some mtr)
+    (hs : e.scaleOf = some (scale, 12)) (h1 : e.numD "degree" 0 = some deg) (h2 : e.numD "mtranspose" 0 = some mtr)
     (h3 : e.numD "gtranspose" 0 = some gtr) (h4 : e.numD "root" 0 = some root)
-    (h5 : e.numD "octave" 5 = some oct) (hk : degreeToKey scale (deg + mtr) = some key) :
+    (h5 : e.numD "octave" 5 = some oct) (hk : degreeToKey scale 12 (deg + mtr) = some key) :
     e.midinoteFromDegree = some ((key + gtr + root) / 12 * 12 + (oct - 5) * 12 + 60) := by
-  unfold Ev.midinoteFromDegree
-  simp only [hs, h1, h2, h3, h4, h5, hk, Option.bind_eq_bind, Option.bind_some]
+  rw [chain_degree_to_midinote_steps e scale 12 deg mtr gtr root oct key (by decide) hs h1 h2 h3 h4 h5 hk]
   congr 1
-  have : ((key + gtr + root) / 12 + oct - 5) * 12 = (key + gtr + root) / 12 * 12 + (oct - 5) * 12 := by
+  have : ((key + gtr + root) / ((12 : Nat) : Rat) + oct - 5) * 12 =
+      (key + gtr + root) / 12 * 12 + (oct - 5) * 12 := by
     rw [Rat.sub_eq_add_neg, Rat.add_mul, Rat.add_mul, Rat.sub_eq_add_neg, Rat.add_mul, Rat.add_assoc]
+    rfl
   rw [this]
 
 /-- `freq = midicps(midinote)` on the degree chain, then `freq * harmonic + detune`. -/
